@@ -89,6 +89,10 @@ func objExpr(o *object.Object, info expr.RefInfo) (expr.Value, error) {
 			return true
 		})
 		if ok {
+			if rf.Value().Kind() == field.Number {
+				// also +Inf, -Inf and NaN, which are strings in JSON
+				return expr.Number(rf.Value().Num()), nil
+			}
 			r := gjson.Parse(rf.Value().JSON())
 			return resultToValue(r), nil
 		}
